@@ -70,6 +70,14 @@ Constructs == {
   K("import_arg", 1, <<"import", S, "./p.nix", S, "{", O, "}">>),
   K("not", 2, <<"!", O, "a">>),
   K("neg", 2, <<"-", O, "a">>),
+  K("neg_path", 2, <<"-", S, "./p">>),
+  K("neg_int", 2, <<"-", O, "1">>),
+  K("neg_neg", 2, <<"-", S, "-", O, "a">>),
+  K("not_not", 2, <<"!", O, "!", O, "a">>),
+  K("minus_neg", 2, <<"a", S, "-", S, "-", O, "b">>),
+  K("neg_select", 2, <<"-", O, "a", O, ".", O, "b">>),
+  K("le", 2, <<"a", S, "<=", S, "b">>),
+  K("gt", 2, <<"a", S, ">", S, "b">>),
   K("concat", 2, <<"a", S, "++", S, "b">>),
   K("update", 2, <<"a", S, "//", S, "b">>),
   K("plus", 2, <<"a", S, "+", S, "b">>),
@@ -105,6 +113,8 @@ Constructs == {
   K("with", 3, <<"with", S, "a", O, ";", S, "b">>),
   K("assert", 3, <<"assert", S, "a", O, ";", S, "b">>),
   K("let0", 3, <<"let", S, "in", S, "a">>),
+  K("let0_let", 3, <<"let", S, "in", S, "let", S, "a", O, "=", O, "1", O, ";", S, "in", S, "a">>),
+  K("let0_set", 3, <<"let", S, "in", S, "{", O, "a", O, "=", O, "1", O, ";", O, "}">>),
   K("let1", 3, <<"let", S, "a", O, "=", O, "1", O, ";", S, "in", S, "a">>),
   K("let2", 3, <<"let", S, "a", O, "=", O, "1", O, ";", S, "b", O, "=", O, "a", O, ";", S, "in", S, "b">>),
   K("let_inherit", 3, <<"let", S, "inherit", S, "a", O, ";", S, "in", S, "a">>),
